@@ -414,7 +414,12 @@ def replay_C06(ctx, case):
 # C05
 # --------------------------------------------------------------------------------------------
 
-TOL = 1e-12
+def _tol():
+    t = tables()['tol']
+    return t[0] / t[1]
+
+
+TOL = 1e-12      # replaced by the value extracted from the code on first use (`abs_rule`)
 SWAP = {'eq': 'eq', 'ne': 'ne', 'lt': 'gt', 'gt': 'lt', 'le': 'ge', 'ge': 'le'}
 
 
@@ -422,6 +427,8 @@ def abs_rule(c, x, y, same_unit):
     """what the code's documented rule (absolute tolerance in the left operand's unit) yields"""
     if same_unit:
         return CMPS[c](x, y)
+    global TOL
+    TOL = _tol()
     d = x - y
     return {'eq': abs(d) < TOL, 'ne': abs(d) > TOL, 'lt': d < -TOL, 'le': d <= TOL, 'gt': d > TOL, 'ge': d >= -TOL}[c]
 
